@@ -285,7 +285,7 @@ static inline void fold(uint64_t v) {
 }
 
 uint32_t choose(uint32_t n, const char* site) {
-  if (n <= 1) return 0;
+  if (n <= 1 || !g_run) return 0; // outside a run (process_init) every choice is the simplest one
   Quiet quiet;
   RunState& r = *g_run;
   uint32_t v;
@@ -350,6 +350,7 @@ static uint64_t hash_cstr(const char* s) {
 }
 
 void ev(const char* kind, uint64_t a, uint64_t b, uint64_t c) {
+  if (!g_run) return;
   Quiet quiet;
   RunState& r = *g_run;
   fold(hash_cstr(kind));
@@ -369,6 +370,7 @@ void note(const std::string& text) {
 bool verbose() { return g_run && g_run->verbose; }
 
 void hash_bytes(const void* data, size_t size) {
+  if (!g_run) return;
   Quiet quiet;
   const uint8_t* p = (const uint8_t*)data;
   uint64_t h = 0xCBF29CE484222325ULL;
@@ -380,11 +382,14 @@ void hash_bytes(const void* data, size_t size) {
   fold(size);
 }
 
-void hash_u64(uint64_t v) { fold(v); }
+void hash_u64(uint64_t v) {
+  if (g_run) fold(v);
+}
 
 // ------------------------------------------------------------------ verdicts
 
 void fail_soft(const std::string& cls, const std::string& key, const std::string& msg) {
+  if (!g_run) harness_bug("violation reported outside a run: " + cls + ": " + msg);
   Quiet quiet;
   RunState& r = *g_run;
   if (!r.has_violation) {
